@@ -202,13 +202,15 @@ theorem cuboid_init_iff {d : ℤ} {Ls : List ℚ} {c : Cuboid ℚ} :
     constructor
     · intro h; cases h
     · rintro ⟨h, -⟩; omega
-  · by_cases hn : (Ls.length : ℤ) ≠ d
-    · simp only [hd, hn, if_true, if_false]
+  · rw [if_neg hd]
+    by_cases hn : (Ls.length : ℤ) ≠ d
+    · rw [if_pos hn]
       constructor
       · intro h; cases h
       · rintro ⟨-, h, -⟩; exact absurd h hn
-    · by_cases ha : (Ls.any fun l => decide (l ≤ 0)) = true
-      · simp only [hd, hn, ha, if_true, if_false]
+    · rw [if_neg hn]
+      by_cases ha : (Ls.any fun l => decide (l ≤ 0)) = true
+      · rw [if_pos ha]
         constructor
         · intro h; cases h
         · rintro ⟨-, -, h, -⟩
@@ -216,7 +218,7 @@ theorem cuboid_init_iff {d : ℤ} {Ls : List ℚ} {c : Cuboid ℚ} :
           obtain ⟨l, hl, hl'⟩ := ha
           have := h l hl
           simp at hl'; linarith
-      · simp only [hd, hn, ha, if_false, Except.ok.injEq]
+      · rw [if_neg ha, Except.ok.injEq]
         constructor
         · intro h
           refine ⟨by omega, not_not.mp hn, ?_, h.symm⟩
@@ -245,7 +247,7 @@ theorem IsPos.unique {L x y y' : ℚ} (hL : 0 < L) (h : IsPos L x y) (h' : IsPos
 theorem IsSep.unique {L s r r' : ℚ} (hL : 0 < L) (h : IsSep L s r) (h' : IsSep L s r') : r = r' := by
   rw [wrapSep_unique hL h.1 h.2.1 h.2.2, wrapSep_unique hL h'.1 h'.2.1 h'.2.2]
 theorem IsSep.abs_le {L s r : ℚ} (h : IsSep L s r) : |r| ≤ L / 2 := by
-  rw [abs_le]; exact ⟨h.1, h.2.1.le⟩
+  rw [_root_.abs_le]; exact ⟨h.1, h.2.1.le⟩
 theorem isPos_wrap {L : ℚ} (hL : 0 < L) (x : ℚ) : IsPos L x (wrap Ops.rat x L) :=
   ⟨(wrap_range hL).1, (wrap_range hL).2, wrap_congr hL⟩
 theorem isSep_wrapSep {L : ℚ} (hL : 0 < L) (s : ℚ) : IsSep L s (wrapSep Ops.rat s L (L / 2)) :=
@@ -335,5 +337,122 @@ theorem cubic_nextImage (hc : Cubic.init Ops.rat d L = .ok c) (x : ℚ) (i i' : 
   simpa [Cubic.correctPositionEntry, Cubic.nextImage] using this
 
 end cubic
+
+/-! ## 4. `HypercuboidPeriodicBoundaries` -/
+
+section cuboid
+variable {d : ℤ} {Ls : List ℚ} {c : Cuboid ℚ}
+
+/-- `correct_position_entry(x, j)` for a direction `0 ≤ j < dimension`: the representative of `x` in `[0, L_j)` -/
+theorem cuboid_correctPositionEntry (hc : Cuboid.init Ops.rat d Ls = .ok c) (x : ℚ) (j : ℕ) (hj : j < Ls.length) :
+    c.correctPositionEntry Ops.rat x j = some (wrap Ops.rat x Ls[j]) ∧ IsPos Ls[j] x (wrap Ops.rat x Ls[j]) := by
+  obtain ⟨-, -, hpos, rfl⟩ := cuboid_init_iff.mp hc
+  refine ⟨by simp [Cuboid.correctPositionEntry, pyGet_natCast, hj], isPos_wrap (hpos _ (List.getElem_mem hj)) x⟩
+
+/-- whatever (legal, possibly negative) Python index is passed, the result is the representative with respect to one of
+the box lengths -/
+theorem cuboid_correctPositionEntry_some (hc : Cuboid.init Ops.rat d Ls = .ok c) (x y : ℚ) (i : ℤ)
+    (h : c.correctPositionEntry Ops.rat x i = some y) : ∃ L ∈ Ls, IsPos L x y := by
+  obtain ⟨-, -, hpos, rfl⟩ := cuboid_init_iff.mp hc
+  simp only [Cuboid.correctPositionEntry] at h
+  cases hg : pyGet Ls i with
+  | none => simp [hg] at h
+  | some L =>
+    simp [hg] at h
+    subst h
+    exact ⟨L, pyGet_mem hg, isPos_wrap (hpos _ (pyGet_mem hg)) x⟩
+
+/-- an index outside `-dimension ≤ i < dimension` is the `IndexError` outcome -/
+theorem cuboid_correctPositionEntry_indexError (hc : Cuboid.init Ops.rat d Ls = .ok c) (x : ℚ) (i : ℤ)
+    (h : d ≤ i ∨ i < -d) : c.correctPositionEntry Ops.rat x i = none := by
+  obtain ⟨-, hlen, -, rfl⟩ := cuboid_init_iff.mp hc
+  simp [Cuboid.correctPositionEntry, pyGet_none (l := Ls) (i := i) (by omega)]
+
+/-- `correct_position` for a position with at most `dimension` entries: entry `j` becomes its representative in
+`[0, L_j)`; and the function is idempotent -/
+theorem cuboid_correctPosition (hc : Cuboid.init Ops.rat d Ls = .ok c) (p : List ℚ) (hp : p.length ≤ Ls.length) :
+    ∃ r, c.correctPosition Ops.rat p = some r ∧ r.length = p.length ∧
+      (∀ j (hjp : j < p.length) (hjr : j < r.length) (hjL : j < Ls.length), IsPos Ls[j] p[j] r[j]) ∧
+      c.correctPosition Ops.rat r = some r := by
+  obtain ⟨-, -, hpos, rfl⟩ := cuboid_init_iff.mp hc
+  refine ⟨_, cuboid_correctPosition_eq _ _ p hp, by simp [hp], ?_, ?_⟩
+  · intro j hjp hjr hjL
+    simp only [List.getElem_zipWith]
+    exact isPos_wrap (hpos _ (List.getElem_mem hjL)) _
+  · rw [cuboid_correctPosition_eq _ _ _ (by simp [hp])]
+    congr 1
+    apply List.ext_getElem
+    · simp [hp]
+    · intro j h1 h2
+      simp only [List.getElem_zipWith]
+      have hjL : j < Ls.length := by simp at h2; omega
+      exact wrap_idem (hpos _ (List.getElem_mem hjL))
+
+/-- a position with more than `dimension` entries is the `IndexError` outcome -/
+theorem cuboid_correctPosition_indexError (hc : Cuboid.init Ops.rat d Ls = .ok c) (p : List ℚ)
+    (hp : Ls.length < p.length) : c.correctPosition Ops.rat p = none := by
+  obtain ⟨-, -, -, rfl⟩ := cuboid_init_iff.mp hc
+  exact cuboid_correctPosition_none _ _ p hp
+
+/-- `correct_separation_entry(s, j)`: the representative of `s` in `[-L_j/2, L_j/2)`, the shortest periodic image -/
+theorem cuboid_correctSeparationEntry (hc : Cuboid.init Ops.rat d Ls = .ok c) (s : ℚ) (j : ℕ) (hj : j < Ls.length) :
+    ∃ r, c.correctSeparationEntry Ops.rat s j = some r ∧ IsSep Ls[j] s r ∧ ∀ k : ℤ, |r| ≤ |s + k * Ls[j]| := by
+  obtain ⟨-, -, hpos, rfl⟩ := cuboid_init_iff.mp hc
+  have hL := hpos _ (List.getElem_mem hj)
+  refine ⟨wrapSep Ops.rat s Ls[j] (Ls[j] / 2), ?_, isSep_wrapSep hL s, fun k => wrapSep_minimal hL k⟩
+  simp [Cuboid.correctSeparationEntry, pyGet_natCast, hj]
+
+theorem cuboid_correctSeparationEntry_indexError (hc : Cuboid.init Ops.rat d Ls = .ok c) (s : ℚ) (i : ℤ)
+    (h : d ≤ i ∨ i < -d) : c.correctSeparationEntry Ops.rat s i = none := by
+  obtain ⟨-, hlen, -, rfl⟩ := cuboid_init_iff.mp hc
+  have : pyGet (Ls.map (· / 2)) i = none := pyGet_none (by simp; omega)
+  simp [Cuboid.correctSeparationEntry, this]
+
+/-- `correct_separation` for a vector with at most `dimension` entries -/
+theorem cuboid_correctSeparation (hc : Cuboid.init Ops.rat d Ls = .ok c) (s : List ℚ) (hs : s.length ≤ Ls.length) :
+    ∃ r, c.correctSeparation Ops.rat s = some r ∧ r.length = s.length ∧
+      ∀ j (hjs : j < s.length) (hjr : j < r.length) (hjL : j < Ls.length), IsSep Ls[j] s[j] r[j] := by
+  obtain ⟨-, -, hpos, rfl⟩ := cuboid_init_iff.mp hc
+  refine ⟨_, cuboid_correctSeparation_eq _ _ s hs (by simpa using hs), by simp [hs], ?_⟩
+  intro j hjs hjr hjL
+  simp only [List.getElem_zipWith, List.getElem_zip, List.getElem_map]
+  exact isSep_wrapSep (hpos _ (List.getElem_mem hjL)) _
+
+theorem cuboid_correctSeparation_indexError (hc : Cuboid.init Ops.rat d Ls = .ok c) (s : List ℚ)
+    (hs : Ls.length < s.length) : c.correctSeparation Ops.rat s = none := by
+  obtain ⟨-, -, -, rfl⟩ := cuboid_init_iff.mp hc
+  exact cuboid_correctSeparation_none _ _ s (Or.inl hs)
+
+/-- `separation_vector(reference, target)` for positions with (at least) `dimension` entries: `dimension` entries; entry
+`j` is congruent to `target[j] - reference[j]` modulo `L_j`, lies in `[-L_j/2, L_j/2)` (so `|r_j| ≤ L_j/2`) -/
+theorem cuboid_separationVector (hc : Cuboid.init Ops.rat d Ls = .ok c) (ref tgt : List ℚ)
+    (hr : Ls.length ≤ ref.length) (ht : Ls.length ≤ tgt.length) :
+    ∃ r, c.separationVector Ops.rat ref tgt = some r ∧ r.length = Ls.length ∧
+      ∀ j (hj : j < Ls.length) (hjr : j < r.length), IsSep Ls[j] (tgt[j] - ref[j]) r[j] := by
+  obtain ⟨hd, hlen, -, hceq⟩ := cuboid_init_iff.mp hc
+  have hdim : c.dim = Ls.length := by rw [hceq]; simp only; omega
+  obtain ⟨s, hs⟩ := rawSeparation_isSome (dim := c.dim) (ref := ref) (tgt := tgt) (by omega) (by omega)
+  obtain ⟨hsl, hse⟩ := (rawSeparation_spec _ _ _ _).mp hs
+  obtain ⟨r, hr1, hr2, hr3⟩ := cuboid_correctSeparation hc s (by omega)
+  refine ⟨r, by simp [Cuboid.separationVector, hs, hr1], by omega, ?_⟩
+  intro j hj hjr
+  obtain ⟨_, _, e⟩ := hse j (by omega) (by omega)
+  have := hr3 j (by omega) hjr hj
+  rwa [e] at this
+
+theorem cuboid_separationVector_indexError (hc : Cuboid.init Ops.rat d Ls = .ok c) (ref tgt : List ℚ)
+    (h : ref.length < Ls.length ∨ tgt.length < Ls.length) : c.separationVector Ops.rat ref tgt = none := by
+  obtain ⟨hd, hlen, -, hceq⟩ := cuboid_init_iff.mp hc
+  have hdim : c.dim = Ls.length := by rw [hceq]; simp only; omega
+  simp [Cuboid.separationVector, rawSeparation_none (dim := c.dim) (ref := ref) (tgt := tgt) (by omega)]
+
+/-- `next_image(x, j)` moves to a congruent position with respect to `L_j` -/
+theorem cuboid_nextImage (hc : Cuboid.init Ops.rat d Ls = .ok c) (x : ℚ) (j : ℕ) (hj : j < Ls.length) :
+    c.nextImage x j = some (x + Ls[j]) ∧ wrap Ops.rat (x + Ls[j]) Ls[j] = wrap Ops.rat x Ls[j] := by
+  obtain ⟨-, -, hpos, rfl⟩ := cuboid_init_iff.mp hc
+  refine ⟨by simp [Cuboid.nextImage, pyGet_natCast, hj], ?_⟩
+  simpa using wrap_add_int_mul (x := x) (hpos _ (List.getElem_mem hj)) 1
+
+end cuboid
 
 end JF.C15
